@@ -68,6 +68,10 @@ def zoo():
         ("Each", lambda: L("a") & "b"), ("Each.opt", lambda: pp.Opt("a") & "b" & pp.ZeroOrMore("c")),
         ("Opt", lambda: pp.Opt("a") + "b"), ("ZeroOrMore", lambda: pp.ZeroOrMore("a")), ("OneOrMore", lambda: pp.OneOrMore(W("ab"))),
         ("OneOrMore.stop", lambda: pp.OneOrMore(W("ab"), stop_on="b")), ("NotAny", lambda: ~L("a") + W("ab")), ("FollowedBy", lambda: pp.FollowedBy("a") + W("ab")),
+        # a lookbehind tried where fewer characters precede than it needs (start of the text, right after a short token)
+        ("PrecededBy.first", lambda: pp.PrecededBy("b") + W("ab12")), ("PrecededBy.first2", lambda: pp.PrecededBy("ab") + W("ab12,")),
+        ("PrecededBy.first3", lambda: pp.PrecededBy("abc") + pp.Regex(r"(?s).")), ("PrecededBy.short", lambda: pp.Opt("a") + pp.PrecededBy("aab") + W("ab1")),
+        ("PrecededBy.kw", lambda: pp.PrecededBy(pp.Keyword("ab")) + W(" ab")), ("PrecededBy.alt", lambda: (pp.PrecededBy("ab") | pp.PrecededBy(",")) + W("ab1")),
         ("PrecededBy", lambda: W("ab") + pp.PrecededBy("b") + ","), ("PrecededBy.win", lambda: W("ab") + pp.PrecededBy(W("ab"), retreat=2) + ","),
         ("Group", lambda: pp.Group(W("ab") + ",")), ("Suppress", lambda: pp.Suppress("a") + "b"), ("Combine", lambda: pp.Combine(W("a") + W("b"))),
         # a parse action that raises a ParseException WITHOUT a location (the one-argument form), below wrappers that fill the
